@@ -574,16 +574,23 @@ class GenCanon:
 
 M0 = "memref<?x?xi8>"
 M1 = "memref<?x?xi32>"
+M2 = "memref<?x?x?xi16>"
+
+
+def rank_of(ty):
+    """rank of a memref type string `memref<AxBx...xT, ...>`"""
+    return len(ty[len("memref<"):].split(",")[0].split("x")) - 1
 
 
 class GenReuse:
     """loop nests with allocations, memref.dim, subviews and affine.min for reuse-memref-allocs"""
 
-    def __init__(self, r, minfirst_nonconst=False):
+    def __init__(self, r, minfirst_nonconst=False, chain_bias=0.12):
         self.r = r
         self.n = 0
         self.tags = 0
         self.bad_min = minfirst_nonconst
+        self.chain_bias = chain_bias
 
     def fresh(self, p="v"):
         self.n += 1
@@ -605,6 +612,8 @@ class GenReuse:
         k = r.choice(["const", "arith", "arith", "dim", "dim", "dim", "min", "subview", "subview", "alloc", "alloc", "test",
                       "test", "pure"])
         mems = [v for v in vals if v[1] != IDX]
+        if r.random() < self.chain_bias:
+            return self.chain(ind, vals, out)
         if r.random() < 0.22:
             return self.cluster(ind, vals, out)
         if k == "const":
@@ -625,7 +634,7 @@ class GenReuse:
         elif k == "dim":
             m = r.choice(mems)
             v = self.fresh("d")
-            idx = r.choice(["%c0", "%c1"])
+            idx = f"%c{r.randrange(rank_of(m[1]))}"
             out.append(f'{ind}{v} = "memref.dim"({m[0]}, {idx}) : ({m[1]}, index) -> index')
             vals.append((v, IDX, "dim"))
         elif k == "min":
@@ -724,6 +733,63 @@ class GenReuse:
         if r.random() < 0.6:
             out.append(f'{ind}"test.op"({a}) {{tag = "{self.tag()}"}} : (memref<?x?xi8>) -> ()')
 
+    def chain(self, ind, vals, out):
+        """`%q = memref.dim %sv, a` feeding only an alloc, where the size of %sv at position a is the dynamic operand
+        `%d = memref.dim %m, b` (a != b mostly; %d usually kept inside the loop by a side-effecting / arith user), on 2-D and
+        3-D memrefs: MoveMemrefDims resolves %q recursively through the subview size to a new `memref.dim %m, b`."""
+        r = self.r
+        margs = [v for v in vals if v[1] != IDX and v[2] in ("arg", "arg3")]
+        m = r.choice(margs)                      # the memref whose extent is queried (inner dim)
+        src = r.choice(margs)                    # the memref the subview is taken of
+        rk = rank_of(src[1])
+        a = r.randrange(rk)
+        bs = [k for k in range(rank_of(m[1])) if k != a] if r.random() < 0.85 else list(range(rank_of(m[1])))
+        b = r.choice(bs)
+        d = self.fresh("d")
+        out.append(f'{ind}{d} = "memref.dim"({m[0]}, %c{b}) : ({m[1]}, index) -> index')
+        vals.append((d, IDX, "dim"))
+        keep = r.random()
+        if keep < 0.55:
+            out.append(f'{ind}"test.op"({d}) {{tag = "{self.tag()}"}} : (index) -> ()')
+        elif keep < 0.8:
+            v = self.fresh()
+            out.append(f"{ind}{v} = arith.addi {d}, {self.pick_idx(vals, prefer=['iv', 'const'])} : index")
+            vals.append((v, IDX, "arith"))
+            out.append(f'{ind}"test.op"({v}) {{tag = "{self.tag()}"}} : (index) -> ()')
+        sizes, shape = [], []
+        for k in range(rk):
+            if k == a:
+                sizes.append(d)
+                shape.append("?")
+            elif r.random() < 0.5:
+                c = r.choice([2, 4, 8])
+                sizes.append(str(c))
+                shape.append(str(c))
+            else:
+                sizes.append(self.pick_idx(vals, prefer=r.choice([["const"], ["dim"], ["arg"], None])))
+                shape.append("?")
+        el = src[1][len("memref<"):].split(",")[0].split("x")[-1].rstrip(">")
+        offs = [self.pick_idx(vals, prefer=["iv", "const"]) for _ in range(rk)]
+        ty = f"memref<{'x'.join(shape)}x{el}, strided<[{', '.join(['?'] * (rk - 1) + ['1'])}], offset: ?>>"
+        sv = self.fresh("sv")
+        out.append(f"{ind}{sv} = memref.subview {src[0]}[{', '.join(offs)}] [{', '.join(sizes)}] [{', '.join(['1'] * rk)}] : "
+                   f"{src[1]} to {ty}")
+        vals.append((sv, ty, "subview"))
+        if r.random() < 0.5:
+            out.append(f'{ind}"test.op"({sv}) {{tag = "{self.tag()}"}} : ({ty}) -> ()')
+        q = self.fresh("d")
+        out.append(f'{ind}{q} = "memref.dim"({sv}, %c{a}) : ({ty}, index) -> index')
+        vals.append((q, IDX, "dim"))
+        al = self.fresh("a")
+        if r.random() < 0.5:
+            out.append(f"{ind}{al} = memref.alloc({q}) : memref<?xi8>")
+            aty = "memref<?xi8>"
+        else:
+            out.append(f"{ind}{al} = memref.alloc({q}, {self.pick_idx(vals, prefer=['const', 'dim'])}) : memref<?x?xi8>")
+            aty = "memref<?x?xi8>"
+        vals.append((al, aty, "alloc"))
+        out.append(f'{ind}"test.op"({al}) {{tag = "{self.tag()}"}} : ({aty}) -> ()')
+
     def loop(self, depth, ind, vals):
         r = self.r
         iv = self.fresh("i")
@@ -745,7 +811,7 @@ class GenReuse:
     def prog(self):
         r = self.r
         cs = [f"  %c{k} = arith.constant {k} : index" for k in range(5)]
-        vals = [("%m0", M0, "arg"), ("%m1", M1, "arg"), ("%n0", IDX, "arg"), ("%n1", IDX, "arg")] + \
+        vals = [("%m0", M0, "arg"), ("%m1", M1, "arg"), ("%n0", IDX, "arg"), ("%n1", IDX, "arg"), ("%m2", M2, "arg3")] + \
                [(f"%c{k}", IDX, "const") for k in (2, 4)]
         body = []
         for _ in range(r.choice([0, 1, 2])):
@@ -753,12 +819,17 @@ class GenReuse:
         body += self.loop(r.choice([0, 1, 1, 2]), "  ", vals)
         if r.random() < 0.3:
             self.item("  ", vals, body, 0)
-        return f"func.func @f(%m0 : {M0}, %m1 : {M1}, %n0 : index, %n1 : index) {{\n" + "\n".join(cs + body) + "\n  func.return\n}\n"
+        return (f"func.func @f(%m0 : {M0}, %m1 : {M1}, %n0 : index, %n1 : index, %m2 : {M2}) {{\n" + "\n".join(cs + body)
+                + "\n  func.return\n}\n")
 
     def envs(self):
+        """every dimension of every memref argument gets its own extent (a wrong dimension index is visible in the trace)"""
         r = self.r
-        return [[[r.randint(1, 12), r.randint(1, 12)], [r.randint(1, 12), r.randint(1, 12)], r.randint(0, 4), r.randint(0, 12)]
-                for _ in range(3)]
+        out = []
+        for _ in range(3):
+            ext = r.sample(range(1, 16), 7)
+            out.append([ext[0:2], ext[2:4], r.randint(0, 4), r.randint(0, 12), ext[4:7]])
+        return out
 
 
 STEP_TEMPLATE = """func.func @f(%n0 : index, %n1 : index, %s0 : index) {{
@@ -798,7 +869,7 @@ class C17(Prop):
     CASE_TIMEOUT = 150
     exhaustive_thorough = True
     rule = ("generated loop nests (depth <= 3, constant/dynamic bounds and steps, ub not a multiple of step, test.op / pure ops anywhere, "
-            "allocs / memref.dim / subviews / affine.min depending or not on induction variables); every individual rewrite of the "
+            "allocs / memref.dim / subviews / affine.min depending or not on induction variables, 2-D/3-D memrefs with a distinct extent per dimension, dim-of-subview chains through a memref.dim size with a different index); every individual rewrite of the "
             "greedy driver is replayed through the model rule; non-trivial = the pass performed at least one non-DCE rewrite")
     trusted_base = [
         "modelled: ChangeForStep (with F03), MergeForLoops, LoopHoistPureOperations, MoveMemrefDims and the driver's dead-code step as "
@@ -828,9 +899,12 @@ class C17(Prop):
             elif x < 6:
                 g = GenCanon(r, perfect=False)
                 yield {"kind": "canon-any", "pass": CANON, "src": g.prog(), "envs": g.envs()}
-            elif x < 9:
+            elif x < 8:
                 g = GenReuse(r)
                 yield {"kind": "reuse", "pass": REUSE, "src": g.prog(), "envs": g.envs()}
+            elif x < 9:
+                g = GenReuse(r, chain_bias=0.5)
+                yield {"kind": "reuse-chain", "pass": REUSE, "src": g.prog(), "envs": g.envs()}
             else:
                 sp = r.choice(["neg", "step0", "iter", "badmin"])
                 if sp == "badmin":
